@@ -77,23 +77,26 @@ CONSTANTS IPs,        \* addresses (their state is disjoint in the code: separat
           MaxClock, MaxTotal, MaxPend, MaxAdm,    \* bounds of the explored state graph
           Acts,       \* action alphabet of this configuration
           Atomic,     \* TRUE: a handshake runs to completion before anything else happens
+          BlForms,    \* entry forms the operator actions of this configuration use (subset of Forms)
           Fixed,      \* subset of {"unban", "unbl", "order", "shadow"}: repairs present in the code
           EmitActs,   \* behaviour generation: print the history after every step whose action is in
                       \* this set ("dev": every step in which a deviation or a violation is recorded;
+                      \* "mixed": every Query made while an expired and a live blacklist entry coexist;
                       \* "end": every step that brings the history to length MaxHist); {} = no output
           MaxHist     \* bound on the length of a history (generation / simulation)
 
 VARIABLES clock,
           fails, total,          \* FailureRecord: Failures (clock values, pruned lazily), TotalCount
           ban, pendUnban,        \* bannedIPs[ip]; number of spawned, not yet run `go UnbanIP(ip)`
+          cpend,                 \* deviation "split clean-up": addresses a clean-up pass has scanned as expired and not yet deleted
           bl, wl, pendUnbl,      \* black-/whitelist entries covering ip, per form; spawned lazy removals
           bucket,                \* token bucket of anonymous registrations
           pc, hs,                \* handshake processes (goroutines inside HandleHandshake)
           pf, ptot, oblig, allow, blob, adm, viol, dev,   \* ghosts
           hist
-vars == <<clock, fails, total, ban, pendUnban, bl, wl, pendUnbl, bucket, pc, hs,
+vars == <<clock, fails, total, ban, pendUnban, cpend, bl, wl, pendUnbl, bucket, pc, hs,
           pf, ptot, oblig, allow, blob, adm, viol, dev, hist>>
-view == <<clock, fails, total, ban, pendUnban, bl, wl, pendUnbl, bucket, pc, hs,
+view == <<clock, fails, total, ban, pendUnban, cpend, bl, wl, pendUnbl, bucket, pc, hs,
           pf, ptot, oblig, allow, blob, adm, viol, dev>>
 
 Max2(a, b) == IF a >= b THEN a ELSE b
@@ -110,9 +113,12 @@ Stronger(a, b) == IF a.k = "perm" \/ b.k = "perm" THEN Perm
                   ELSE IF b.k = "none" THEN a
                   ELSE Temp(Max2(a.until, b.until))
 
-Forms     == {"ip", "net"}              \* entry forms that cover the address ("other" does not)
-NoEntries == [ip |-> None, net |-> None]
-NoWl      == [ip |-> FALSE, net |-> FALSE]
+\* entry forms that cover the address: the address itself and two overlapping CIDR ranges containing
+\* it (a narrow and a wide one, with independent lifetimes); "other" does not cover it
+Forms     == {"ip", "net", "net2"}
+Ranges    == {"net", "net2"}
+NoEntries == [f \in Forms |-> None]
+NoWl      == [f \in Forms |-> FALSE]
 
 InWin(s) == SelectSeq(s, LAMBDA t : clock - t < Win)       \* cleanupOldFailures
 
@@ -126,7 +132,7 @@ Idle == [ip |-> "", kind |-> "", dec |-> "none", pcnt |-> 0, ptot |-> 0, rc |-> 
 
 Init == /\ clock = 0
         /\ fails = [i \in IPs |-> <<>>] /\ total = [i \in IPs |-> 0]
-        /\ ban = [i \in IPs |-> None] /\ pendUnban = [i \in IPs |-> 0]
+        /\ ban = [i \in IPs |-> None] /\ pendUnban = [i \in IPs |-> 0] /\ cpend = [i \in IPs |-> FALSE]
         /\ bl = [i \in IPs |-> NoEntries] /\ wl = [i \in IPs |-> NoWl] /\ pendUnbl = [i \in IPs |-> 0]
         /\ bucket = [i \in IPs |-> NoBucket]
         /\ pc = [p \in Procs |-> "idle"] /\ hs = [p \in Procs |-> Idle] 
@@ -145,6 +151,8 @@ Out == IF EmitActs = {} THEN TRUE
        ELSE IF \/ hist'[Len(hist')].a \in EmitActs
                \/ ("dev" \in EmitActs /\ (dev' # dev \/ viol' # viol))
                \/ ("end" \in EmitActs /\ Len(hist') = MaxHist)
+               \/ ("mixed" \in EmitActs /\ hist'[Len(hist')].a = "Query"      \* a query while an expired and a live entry coexist
+                     /\ \E i \in IPs : (\E f \in Forms : Expired(bl[i][f])) /\ (\E g \in Forms : Live(bl[i][g])))
             THEN PrintT("BEH " \o ToJson([c |-> Cfg, s |-> hist']))
             ELSE TRUE
 
@@ -152,11 +160,14 @@ Quiet == \A p \in Procs : pc[p] = "idle"
 Free  == Atomic => Quiet          \* guard of everything that is not the continuation of a handshake
 
 \* ---- the two look-ups of the gates (shared by HsGate and Query) ----------------------------
-White(i) == wl[i].ip \/ wl[i].net
-\* findInList: the exact key first, then the ranges; the repaired IsAllowed ignores expired entries
+White(i) == \E f \in Forms : wl[i][f]
+\* findInList: the exact key first, then the ranges in the (randomised) order of the map iteration;
+\* the repaired IsAllowed ignores expired entries, so the order does not matter.  For the code before
+\* that repair the model takes one fixed order (narrow range before wide range).
 Found(i) == IF "shadow" \in Fixed
-            THEN (IF Live(bl[i].ip) THEN "ip" ELSE IF Live(bl[i].net) THEN "net" ELSE "none")
-            ELSE (IF bl[i].ip.k # "none" THEN "ip" ELSE IF bl[i].net.k # "none" THEN "net" ELSE "none")
+            THEN (IF Live(bl[i].ip) THEN "ip" ELSE IF Live(bl[i].net) THEN "net" ELSE IF Live(bl[i].net2) THEN "net2" ELSE "none")
+            ELSE (IF bl[i].ip.k # "none" THEN "ip" ELSE IF bl[i].net.k # "none" THEN "net"
+                  ELSE IF bl[i].net2.k # "none" THEN "net2" ELSE "none")
 BlRefuses(i)  == ~White(i) /\ Found(i) # "none" /\ Live(bl[i][Found(i)])
 \* go m.removeExpiredFromBlacklist(ip): as is for whatever expired entry was found (a no-op for a range),
 \* repaired for an expired exact entry
@@ -176,17 +187,26 @@ Judge(i, blAns, banAns) ==
 \cup (IF banAns = "yes" /\ ~Live(allow[i]) THEN {"spurious"} ELSE {})
 
 \* ---- handshake ------------------------------------------------------------------------------
+\* request shapes: "Bad" / "Good" a known client id with a wrong / right response; ClientID 0 with
+\* Token "new-client" ("Anon") or "anonymous:<x>" ("Anon2") - both are registrations
+\* (handleFirstConnection) - or with any other token ("Zero": no registration, fails the
+\* credential check).  Step 3 of HandleHandshake rate-limits every ClientID-0 request.
+Kinds    == {"Bad", "Good", "Anon", "Anon2", "Zero"}
+RegKinds == {"Anon", "Anon2"}
+Rated(k) == k \in {"Anon", "Anon2", "Zero"}
+Fails(k) == k \in {"Bad", "Zero"}
+
 HsGate(p, i, kind) ==
   /\ kind \in Acts /\ pc[p] = "idle" /\ Free
   /\ LET blRef  == BlRefuses(i)
          banRef == ~blRef /\ BanRefuses(i)
-         rated  == kind = "Anon" /\ ~blRef /\ ~banRef
+         rated  == Rated(kind) /\ ~blRef /\ ~banRef
          tk     == Take(bucket[i])
          res    == IF blRef THEN "bl" ELSE IF banRef THEN "ban" ELSE IF rated /\ ~tk.ok THEN "rate" ELSE "pass"
      IN /\ pendUnbl'  = [pendUnbl  EXCEPT ![i] = @ + (IF BlSpawns(i) THEN 1 ELSE 0)]
         /\ pendUnban' = [pendUnban EXCEPT ![i] = @ + (IF ~blRef /\ BanSpawns(i) THEN 1 ELSE 0)]
         /\ bucket' = IF rated THEN [bucket EXCEPT ![i] = tk.b] ELSE bucket
-        /\ adm' = IF rated /\ tk.ok THEN [adm EXCEPT ![i] = Append(@, clock)] ELSE adm
+        /\ adm' = IF rated /\ tk.ok /\ kind \in RegKinds THEN [adm EXCEPT ![i] = Append(@, clock)] ELSE adm
         /\ viol' = viol \cup Judge(i, IF blRef THEN "yes" ELSE "no", IF blRef THEN "-" ELSE IF banRef THEN "yes" ELSE "no")
         /\ IF res = "pass"
            THEN /\ pc' = [pc EXCEPT ![p] = "cred"]
@@ -194,7 +214,7 @@ HsGate(p, i, kind) ==
            ELSE pc' = pc /\ hs' = hs
         /\ Log([a |-> "Hs", p |-> p, ip |-> i, kind |-> kind, res |-> res])
   /\ dev' = dev \cup DevShadow(i)
-  /\ UNCHANGED <<clock, fails, total, ban, bl, wl, pf, ptot, oblig, allow, blob>>
+  /\ UNCHANGED <<cpend, clock, fails, total, ban, bl, wl, pf, ptot, oblig, allow, blob>>
 
 \* what the statement demands after a failing handshake that saw cnt failures in the window / tot in total
 Demand(cnt, tot, rc) == IF tot >= PermAt THEN Perm ELSE IF cnt >= Threshold THEN Temp(rc + Ban) ELSE None
@@ -202,7 +222,7 @@ Demand(cnt, tot, rc) == IF tot >= PermAt THEN Perm ELSE IF cnt >= Threshold THEN
 HsCred(p) ==
   /\ pc[p] = "cred"
   /\ LET i == hs[p].ip IN
-     IF hs[p].kind = "Bad"
+     IF Fails(hs[p].kind)
      THEN \* RecordFailure, `mu` section
           LET fl   == InWin(Append(fails[i], clock))
               tot  == total[i] + 1
@@ -221,13 +241,13 @@ HsCred(p) ==
                      /\ hs' = [hs EXCEPT ![p] = [@ EXCEPT !.dec = dec, !.pcnt = cnt, !.ptot = ntot, !.rc = clock]]
                      /\ oblig' = oblig
                      /\ Log([a |-> "Cred", p |-> p, res |-> "toban"])
-     ELSE \* RecordSuccess ("Good": challenge-response passed; "Anon": new anonymous client registered)
+     ELSE \* RecordSuccess ("Good": challenge-response passed; "Anon"/"Anon2": new anonymous client registered)
           /\ fails' = [fails EXCEPT ![i] = <<>>] /\ total' = [total EXCEPT ![i] = 0]
           /\ pf' = [pf EXCEPT ![i] = <<>>] /\ ptot' = [ptot EXCEPT ![i] = 0]
           /\ pc' = [pc EXCEPT ![p] = "idle"] /\ hs' = [hs EXCEPT ![p] = Idle]
-          /\ UNCHANGED <<oblig>>
+          /\ UNCHANGED <<cpend, oblig>>
           /\ Log([a |-> "Cred", p |-> p, res |-> "ok"])
-  /\ UNCHANGED <<clock, ban, pendUnban, bl, wl, pendUnbl, bucket, allow, blob, adm, viol, dev>>
+  /\ UNCHANGED <<clock, ban, pendUnban, cpend, bl, wl, pendUnbl, bucket, allow, blob, adm, viol, dev>>
 
 HsBan(p) ==   \* banIP under banMu
   /\ pc[p] = "ban"
@@ -241,7 +261,7 @@ HsBan(p) ==   \* banIP under banMu
         /\ oblig' = [oblig EXCEPT ![i] = Stronger(@, Demand(hs[p].pcnt, hs[p].ptot, hs[p].rc))]
         /\ pc' = [pc EXCEPT ![p] = "idle"] /\ hs' = [hs EXCEPT ![p] = Idle]
         /\ Log([a |-> "Ban", p |-> p, res |-> "fail"])
-  /\ UNCHANGED <<clock, fails, total, pendUnban, bl, wl, pendUnbl, bucket, pf, ptot, blob, adm, viol>>
+  /\ UNCHANGED <<clock, fails, total, pendUnban, cpend, bl, wl, pendUnbl, bucket, pf, ptot, blob, adm, viol>>
 
 \* ---- observation ----------------------------------------------------------------------------
 Query(i) ==
@@ -251,7 +271,7 @@ Query(i) ==
   /\ viol' = viol \cup Judge(i, IF BlRefuses(i) THEN "yes" ELSE "no", IF BanRefuses(i) THEN "yes" ELSE "no")
   /\ Log([a |-> "Query", ip |-> i, bl |-> BlRefuses(i), ban |-> BanRefuses(i)])
   /\ dev' = dev \cup DevShadow(i)
-  /\ UNCHANGED <<clock, fails, total, ban, bl, wl, bucket, pc, hs, pf, ptot, oblig, allow, blob, adm>>
+  /\ UNCHANGED <<cpend, clock, fails, total, ban, bl, wl, bucket, pc, hs, pf, ptot, oblig, allow, blob, adm>>
 
 \* ---- the asynchronous removals -------------------------------------------------------------
 AsyncUnban(i) ==
@@ -265,7 +285,7 @@ AsyncUnban(i) ==
           /\ ban' = [ban EXCEPT ![i] = None]
           /\ dev' = IF Live(ban[i]) THEN dev \cup {"unbanLive"} ELSE dev
   /\ Log([a |-> "Unban", ip |-> i, live |-> Live(ban[i])])
-  /\ UNCHANGED <<clock, fails, total, bl, wl, pendUnbl, bucket, pc, hs, pf, ptot, oblig, allow, blob, adm, viol>>
+  /\ UNCHANGED <<cpend, clock, fails, total, bl, wl, pendUnbl, bucket, pc, hs, pf, ptot, oblig, allow, blob, adm, viol>>
 
 AsyncUnbl(i) ==
   /\ "Unbl" \in Acts /\ Free /\ pendUnbl[i] > 0
@@ -276,7 +296,7 @@ AsyncUnbl(i) ==
      ELSE /\ bl' = [bl EXCEPT ![i].ip = None]
           /\ dev' = IF Live(bl[i].ip) THEN dev \cup {"unblLive"} ELSE dev
   /\ Log([a |-> "Unbl", ip |-> i, live |-> Live(bl[i].ip)])
-  /\ UNCHANGED <<clock, fails, total, ban, pendUnban, wl, bucket, pc, hs, pf, ptot, oblig, allow, blob, adm, viol>>
+  /\ UNCHANGED <<clock, fails, total, ban, pendUnban, cpend, wl, bucket, pc, hs, pf, ptot, oblig, allow, blob, adm, viol>>
 
 \* ---- periodic clean-ups ---------------------------------------------------------------------
 CleanF ==   \* cleanup(), failure records (`mu` section)
@@ -285,13 +305,13 @@ CleanF ==   \* cleanup(), failure records (`mu` section)
   /\ total' = [i \in IPs |-> IF InWin(fails[i]) = <<>> THEN 0 ELSE total[i]]      \* an emptied record is deleted
   /\ ptot'  = [i \in IPs |-> IF InWin(pf[i]) = <<>> THEN 0 ELSE ptot[i]]
   /\ Log([a |-> "CleanF"])
-  /\ UNCHANGED <<clock, ban, pendUnban, bl, wl, pendUnbl, bucket, pc, hs, pf, oblig, allow, blob, adm, viol, dev>>
+  /\ UNCHANGED <<clock, ban, pendUnban, cpend, bl, wl, pendUnbl, bucket, pc, hs, pf, oblig, allow, blob, adm, viol, dev>>
 
 CleanB ==   \* cleanup(), expired bans (`banMu` section): permanent and unexpired bans stay
   /\ "CleanB" \in Acts /\ Free
   /\ ban' = [i \in IPs |-> IF Expired(ban[i]) THEN None ELSE ban[i]]
   /\ Log([a |-> "CleanB"])
-  /\ UNCHANGED <<clock, fails, total, pendUnban, bl, wl, pendUnbl, bucket, pc, hs, pf, ptot, oblig, allow, blob, adm, viol, dev>>
+  /\ UNCHANGED <<clock, fails, total, pendUnban, cpend, bl, wl, pendUnbl, bucket, pc, hs, pf, ptot, oblig, allow, blob, adm, viol, dev>>
 
 Clean ==    \* one complete cleanup() run: both sections back to back (what the sequential driver can call)
   /\ "Clean" \in Acts /\ Free
@@ -300,50 +320,50 @@ Clean ==    \* one complete cleanup() run: both sections back to back (what the 
   /\ ptot'  = [i \in IPs |-> IF InWin(pf[i]) = <<>> THEN 0 ELSE ptot[i]]
   /\ ban' = [i \in IPs |-> IF Expired(ban[i]) THEN None ELSE ban[i]]
   /\ Log([a |-> "Clean"])
-  /\ UNCHANGED <<clock, pendUnban, bl, wl, pendUnbl, bucket, pc, hs, pf, oblig, allow, blob, adm, viol, dev>>
+  /\ UNCHANGED <<clock, pendUnban, cpend, bl, wl, pendUnbl, bucket, pc, hs, pf, oblig, allow, blob, adm, viol, dev>>
 
 CleanL ==   \* IPManager.cleanup()
   /\ "CleanL" \in Acts /\ Free
   /\ bl' = [i \in IPs |-> [f \in Forms |-> IF Expired(bl[i][f]) THEN None ELSE bl[i][f]]]
   /\ Log([a |-> "CleanL"])
-  /\ UNCHANGED <<clock, fails, total, ban, pendUnban, wl, pendUnbl, bucket, pc, hs, pf, ptot, oblig, allow, blob, adm, viol, dev>>
+  /\ UNCHANGED <<clock, fails, total, ban, pendUnban, cpend, wl, pendUnbl, bucket, pc, hs, pf, ptot, oblig, allow, blob, adm, viol, dev>>
 
 \* ---- operator actions -----------------------------------------------------------------------
 MUnban(i) ==   \* UnbanIP called by an operator: lifts the ban and, legitimately, the obligation
   /\ "MUnban" \in Acts /\ Free /\ ban[i].k # "none"
   /\ ban' = [ban EXCEPT ![i] = None] /\ oblig' = [oblig EXCEPT ![i] = None]
   /\ Log([a |-> "MUnban", ip |-> i])
-  /\ UNCHANGED <<clock, fails, total, pendUnban, bl, wl, pendUnbl, bucket, pc, hs, pf, ptot, allow, blob, adm, viol, dev>>
+  /\ UNCHANGED <<clock, fails, total, pendUnban, cpend, bl, wl, pendUnbl, bucket, pc, hs, pf, ptot, allow, blob, adm, viol, dev>>
 
 Blk(i, kind, f) ==   \* AddToBlacklist(entry, duration | 0): the latest order for an entry replaces the previous one
   /\ kind \in Acts /\ Free
   /\ LET e == IF kind = "BlkP" THEN Perm ELSE Temp(clock + BlDur)
      IN bl' = [bl EXCEPT ![i][f] = e] /\ blob' = [blob EXCEPT ![i][f] = e]
   /\ Log([a |-> kind, ip |-> i, form |-> f])
-  /\ UNCHANGED <<clock, fails, total, ban, pendUnban, wl, pendUnbl, bucket, pc, hs, pf, ptot, oblig, allow, adm, viol, dev>>
+  /\ UNCHANGED <<clock, fails, total, ban, pendUnban, cpend, wl, pendUnbl, bucket, pc, hs, pf, ptot, oblig, allow, adm, viol, dev>>
 
 MUnbl(i, f) ==   \* RemoveFromBlacklist(entry) called by an operator
   /\ "MUnbl" \in Acts /\ Free /\ bl[i][f].k # "none"
   /\ bl' = [bl EXCEPT ![i][f] = None] /\ blob' = [blob EXCEPT ![i][f] = None]
   /\ Log([a |-> "MUnbl", ip |-> i, form |-> f])
-  /\ UNCHANGED <<clock, fails, total, ban, pendUnban, wl, pendUnbl, bucket, pc, hs, pf, ptot, oblig, allow, adm, viol, dev>>
+  /\ UNCHANGED <<clock, fails, total, ban, pendUnban, cpend, wl, pendUnbl, bucket, pc, hs, pf, ptot, oblig, allow, adm, viol, dev>>
 
 SetWl(i, on, f) ==
   /\ (IF on THEN "Wl" ELSE "UnWl") \in Acts /\ Free /\ wl[i][f] # on
   /\ wl' = [wl EXCEPT ![i][f] = on]
   /\ Log([a |-> IF on THEN "Wl" ELSE "UnWl", ip |-> i, form |-> f])
-  /\ UNCHANGED <<clock, fails, total, ban, pendUnban, bl, pendUnbl, bucket, pc, hs, pf, ptot, oblig, allow, blob, adm, viol, dev>>
+  /\ UNCHANGED <<clock, fails, total, ban, pendUnban, cpend, bl, pendUnbl, bucket, pc, hs, pf, ptot, oblig, allow, blob, adm, viol, dev>>
 
 Other(i, kind) ==   \* an entry that does not cover the address (range elsewhere): nothing changes for it
   /\ kind \in {"BlkO", "WlO"} /\ kind \in Acts /\ Free
   /\ Log([a |-> IF kind = "BlkO" THEN "Blk" ELSE "Wl", ip |-> i, form |-> "other"])
-  /\ UNCHANGED <<clock, fails, total, ban, pendUnban, bl, wl, pendUnbl, bucket, pc, hs, pf, ptot, oblig, allow, blob, adm, viol, dev>>
+  /\ UNCHANGED <<clock, fails, total, ban, pendUnban, cpend, bl, wl, pendUnbl, bucket, pc, hs, pf, ptot, oblig, allow, blob, adm, viol, dev>>
 
 Reload ==   \* restart: a fresh IPManager loads the lists from storage (= memory minus expired entries)
   /\ "Reload" \in Acts /\ Free /\ \A i \in IPs : pendUnbl[i] = 0
   /\ bl' = [i \in IPs |-> [f \in Forms |-> IF Live(bl[i][f]) THEN bl[i][f] ELSE None]]
   /\ Log([a |-> "Reload"])
-  /\ UNCHANGED <<clock, fails, total, ban, pendUnban, wl, pendUnbl, bucket, pc, hs, pf, ptot, oblig, allow, blob, adm, viol, dev>>
+  /\ UNCHANGED <<clock, fails, total, ban, pendUnban, cpend, wl, pendUnbl, bucket, pc, hs, pf, ptot, oblig, allow, blob, adm, viol, dev>>
 
 \* ---- rate-limiter histories ------------------------------------------------------------------
 IdleTicks == (Burst * 1000 + Refill - 1) \div Refill        \* a whole refill period: burst / rate
@@ -354,7 +374,7 @@ IdleFor ==
   /\ clock' = clock + IdleTicks
   /\ pf' = [i \in IPs |-> SelectSeq(pf[i], LAMBDA t : clock + IdleTicks - t < Win)]
   /\ Log([a |-> "Idle", n |-> IdleTicks])
-  /\ UNCHANGED <<fails, total, ban, pendUnban, bl, wl, pendUnbl, bucket, pc, hs, ptot, oblig, allow, blob, adm, viol, dev>>
+  /\ UNCHANGED <<fails, total, ban, pendUnban, cpend, bl, wl, pendUnbl, bucket, pc, hs, ptot, oblig, allow, blob, adm, viol, dev>>
 
 Flood(i) ==   \* FloodN AllowIP calls back to back (straight at the limiter)
   /\ "Flood" \in Acts /\ Free
@@ -364,22 +384,66 @@ Flood(i) ==   \* FloodN AllowIP calls back to back (straight at the limiter)
      IN /\ bucket' = [bucket EXCEPT ![i] = [has |-> TRUE, tok |-> cur - k * 1000, last |-> clock]]
         /\ adm' = [adm EXCEPT ![i] = @ \o [x \in 1..k |-> clock]]
         /\ Log([a |-> "Flood", ip |-> i, n |-> FloodN, adm |-> k])
-  /\ UNCHANGED <<clock, fails, total, ban, pendUnban, bl, wl, pendUnbl, pc, hs, pf, ptot, oblig, allow, blob, viol, dev>>
+  /\ UNCHANGED <<clock, fails, total, ban, pendUnban, cpend, bl, wl, pendUnbl, pc, hs, pf, ptot, oblig, allow, blob, viol, dev>>
+
+FloodHs(i, kind) ==   \* FloodN registration handshakes back to back through HandleHandshake (gates, limiter, RecordSuccess)
+  /\ "FloodHs" \in Acts /\ kind \in Acts /\ kind \in RegKinds /\ Quiet
+  /\ ~BlSpawns(i) /\ ~BanSpawns(i)          \* no expired entry around: the flood spawns no lazy removals
+  /\ LET blRef  == BlRefuses(i)
+         banRef == ~blRef /\ BanRefuses(i)
+         b   == bucket[i]
+         cur == IF b.has THEN Min2(b.tok + (clock - b.last) * Refill, Burst * 1000) ELSE Burst * 1000
+         k   == IF blRef \/ banRef THEN 0 ELSE Min2(cur \div 1000, FloodN)
+     IN /\ bucket' = IF blRef \/ banRef THEN bucket
+                     ELSE [bucket EXCEPT ![i] = [has |-> TRUE, tok |-> cur - k * 1000, last |-> clock]]
+        /\ adm' = [adm EXCEPT ![i] = @ \o [x \in 1..k |-> clock]]
+        /\ viol' = viol \cup Judge(i, IF blRef THEN "yes" ELSE "no", IF blRef THEN "-" ELSE IF banRef THEN "yes" ELSE "no")
+        /\ IF k > 0     \* every granted registration is a RecordSuccess
+           THEN /\ fails' = [fails EXCEPT ![i] = <<>>] /\ total' = [total EXCEPT ![i] = 0]
+                /\ pf' = [pf EXCEPT ![i] = <<>>] /\ ptot' = [ptot EXCEPT ![i] = 0]
+           ELSE UNCHANGED <<fails, total, pf, ptot>>
+        /\ Log([a |-> "FloodHs", ip |-> i, kind |-> kind, n |-> FloodN, adm |-> k,
+                res |-> IF blRef THEN "bl" ELSE IF banRef THEN "ban" ELSE "pass"])
+  /\ UNCHANGED <<clock, ban, pendUnban, cpend, bl, wl, pendUnbl, pc, hs, oblig, allow, blob, dev>>
+
+\* ---- deviation "split clean-up" ---------------------------------------------------------------
+\* cleanup() as the code stands removes expired bans in ONE critical section (Clean / CleanB above).
+\* A clean-up that only SCANS under the lock and deletes afterwards (one unconditional UnbanIP per
+\* scanned address) deletes whatever ban exists by then - also one recorded after the scan
+\* (deviation cleanLive).  These two actions are in the alphabet of the deviation configurations
+\* only; their schedules are unrealisable on code whose clean-up is one critical section.
+CleanScan ==
+  /\ "CleanScan" \in Acts /\ Free /\ \A i \in IPs : ~cpend[i]
+  /\ fails' = [i \in IPs |-> InWin(fails[i])]
+  /\ total' = [i \in IPs |-> IF InWin(fails[i]) = <<>> THEN 0 ELSE total[i]]
+  /\ ptot'  = [i \in IPs |-> IF InWin(pf[i]) = <<>> THEN 0 ELSE ptot[i]]
+  /\ cpend' = [i \in IPs |-> Expired(ban[i])]
+  /\ Log([a |-> "CleanScan", n |-> Cardinality({i \in IPs : Expired(ban[i])})])
+  /\ UNCHANGED <<clock, ban, pendUnban, bl, wl, pendUnbl, bucket, pc, hs, pf, oblig, allow, blob, adm, viol, dev>>
+
+CleanDel(i) ==
+  /\ "CleanDel" \in Acts /\ Free /\ cpend[i]
+  /\ cpend' = [cpend EXCEPT ![i] = FALSE]
+  /\ ban' = [ban EXCEPT ![i] = None]
+  /\ dev' = IF Live(ban[i]) THEN dev \cup {"cleanLive"} ELSE dev
+  /\ Log([a |-> "CleanDel", ip |-> i, live |-> Live(ban[i])])
+  /\ UNCHANGED <<clock, fails, total, pendUnban, bl, wl, pendUnbl, bucket, pc, hs, pf, ptot, oblig, allow, blob, adm, viol>>
 
 Tick ==
   /\ "Tick" \in Acts /\ Free /\ clock < MaxClock
   /\ clock' = clock + 1
   /\ pf' = [i \in IPs |-> SelectSeq(pf[i], LAMBDA t : clock + 1 - t < Win)]
   /\ Log([a |-> "Tick"])
-  /\ UNCHANGED <<fails, total, ban, pendUnban, bl, wl, pendUnbl, bucket, pc, hs, ptot, oblig, allow, blob, adm, viol, dev>>
+  /\ UNCHANGED <<fails, total, ban, pendUnban, cpend, bl, wl, pendUnbl, bucket, pc, hs, ptot, oblig, allow, blob, adm, viol, dev>>
 
-Step == \/ \E p \in Procs : \/ \E i \in IPs, k \in {"Bad", "Good", "Anon"} : HsGate(p, i, k)
+Step == \/ \E p \in Procs : \/ \E i \in IPs, k \in Kinds : HsGate(p, i, k)
                             \/ HsCred(p) \/ HsBan(p)
         \/ \E i \in IPs : \/ Query(i) \/ AsyncUnban(i) \/ AsyncUnbl(i) \/ MUnban(i) \/ Flood(i)
                           \/ Other(i, "BlkO") \/ Other(i, "WlO")
-                          \/ \E f \in Forms : \/ Blk(i, "Blk", f) \/ Blk(i, "BlkP", f) \/ MUnbl(i, f)
+                          \/ FloodHs(i, "Anon") \/ FloodHs(i, "Anon2") \/ CleanDel(i)
+                          \/ \E f \in BlForms : \/ Blk(i, "Blk", f) \/ Blk(i, "BlkP", f) \/ MUnbl(i, f)
                                                \/ SetWl(i, TRUE, f) \/ SetWl(i, FALSE, f)
-        \/ CleanF \/ CleanB \/ Clean \/ CleanL \/ Reload \/ Tick \/ IdleFor
+        \/ CleanF \/ CleanB \/ Clean \/ CleanScan \/ CleanL \/ Reload \/ Tick \/ IdleFor
 Next == Len(hist) < MaxHist /\ Step /\ Out
 Spec == Init /\ [][Next]_vars
 
@@ -410,7 +474,7 @@ CountsAgree == \A i \in IPs : total[i] = ptot[i] /\ Len(InWin(fails[i])) = Len(I
 PermKept == \A i \in IPs : (oblig[i].k = "perm" /\ ban[i].k # "perm") => dev # {}
 
 \* as-is configurations: a violation is excused only by a listed deviation of the code
-BanHoldsOrKnown       == BanHolds \/ dev \cap {"unbanLive", "tempOverPerm"} # {}
+BanHoldsOrKnown       == BanHolds \/ dev \cap {"unbanLive", "tempOverPerm", "cleanLive"} # {}
 BlacklistHoldsOrKnown == BlacklistHolds \/ dev \cap {"unblLive", "expiredShadows"} # {}
 NoDeviation           == dev = {}
 =============================================================================
